@@ -19,9 +19,9 @@ type idealDAEAD struct {
 
 func (a *idealDAEAD) prefix() []byte {
 	if a.full {
-		return a.k.OutputPrefix()
+		return a.k.WithHead(a.k.OutputPrefix())
 	}
-	return nil
+	return a.k.WithHead(nil)
 }
 
 func (a *idealDAEAD) EncryptDeterministically(pt, ad []byte) ([]byte, error) {
@@ -108,4 +108,28 @@ func VerifH_factory_daead() {
 		verifrt.Assert(len(ev) == 1 && ev[0].Failure, "decrypt failure logged")
 		verifrt.Reach("rejected")
 	}
+}
+
+// A RAW key's genuine ciphertext decrypts even when its first five bytes happen to equal the
+// output prefix of another ENABLED key of the keyset.
+func VerifH_factory_daead_rawcollision() {
+	rec := verifh.InstallMonitoring()
+	ks := verifh.SymbolicKeyset(factoryMax(), []int{0, 1, 3}, true)
+	raw, collides := verifh.RawCollisionSetup(ks)
+	verifrt.Assume(raw >= 0)
+	a, err := NewWithConfig(ks.Handle, stubConfig{})
+	verifrt.Assert(err == nil, "NewWithConfig succeeds")
+	pt := verifrt.Bytes("pt", verifrt.Choice("ptn", 2))
+	ad := verifrt.Bytes("ad", 1)
+	x, _ := (&idealDAEAD{k: ks.Keys[raw], full: true}).EncryptDeterministically(pt, ad)
+	mark := len(rec.Events)
+	got, err := a.DecryptDeterministically(x, ad)
+	verifrt.Assert(err == nil, "a RAW key's genuine ciphertext decrypts whatever its leading bytes are")
+	verifrt.AssertEq(got, pt, "to the plaintext")
+	ev := rec.Since(mark, "decrypt")
+	verifrt.Assert(len(ev) == 1 && !ev[0].Failure && ev[0].KeyID == ks.Keys[raw].ID, "decrypt success logged once, naming the RAW key")
+	if collides {
+		verifrt.Reach("collision")
+	}
+	verifrt.Reach("end")
 }
